@@ -57,16 +57,21 @@ def run():
                         "header x 12 status bytes (all 8 command-status codes) for SX1262, and the same length/offset/buffer/header space "
                         "for SX1276 and SX1272 (no status byte); LoRa::complete_rx: the same complete length/offset/buffer/header space "
                         "for SX1262 (2 status bytes), SX1276 and SX1272; LorawanRadio::rx_single: 70 x 70 lengths/offsets (every 4th "
-                        "value + boundaries) x buffer sizes, explicit header"
+                        "value + boundaries) x buffer sizes, explicit header; LR1110 (explicit header only): the complete "
+                        "length/offset/buffer space x 8 Stat1 values on get_rx_payload, x 2 on LoRa::complete_rx, the 70 x 70 grid "
+                        "on the adapter"
                         if thorough else
                         "16 lengths x 16 offsets (boundaries 0,1,12,64,127/128,255 and wrap-around) x 6 buffer sizes x header "
                         "modes x status bytes, on RadioKind::get_rx_payload, LoRa::complete_rx and LorawanRadio::rx_single, "
-                        "for SX1262, SX1276, SX1272"),
+                        "for SX1262, SX1276, SX1272 and (explicit header only) LR1110"),
     }
     return rep.finish("model_checking", cov, [
         "RxFetch.tla states the chips' buffer semantics from the datasheets: 256-byte buffer, address wrap-around at 256 for "
         "SX126x ReadBuffer and the SX127x FIFO pointer, packet length = PayloadLengthRx / RegRxNbBytes (explicit header) or the "
-        "configured payload length (implicit header), SX126x command status 3/4/5 = failed command",
+        "configured payload length (implicit header), SX126x command status 3/4/5 = failed command; LR1110: GetRxBufferStatus / "
+        "ReadBuffer8 with their responses in separate read transactions that start with Stat1 (command status 0/1 = response "
+        "invalid); what the LR1110 reports as the length of an implicit-header packet is not modelled, so only explicit-header "
+        "reception is recorded for it",
         "the property allows 'or fails with an error' without saying when; the spec additionally demands success when the packet "
         "fits and the status byte reports no command error (otherwise a driver that always fails would pass)",
         "the emulated chip memory holds the pattern (37*i+11) mod 256 (injective), the caller's buffer a canary; two runs with "
